@@ -170,7 +170,8 @@ func sortedNames(m map[string]string) []string {
 }
 
 var routePatternUniverse = []string{"example.com", "a.example.com", "*.example.com", "example.*", "*", "default", "aXexample.com", "*.test", "corp.test", "b.corp.test", "*.corp.test",
-	"corp.*", "*.tes*"} // "corp.*" and "*.test", "*.tes*" and "*.test": overlapping wildcards of equal length
+	"corp.*", "*.tes*", // "corp.*" and "*.test", "*.tes*" and "*.test": overlapping wildcards of equal length
+	"10.9.8.7", "10.9.*", "*.8.7"} // the host of a To URI may be an IPv4 literal: literal entries and patterns over the digits
 
 func genRouteTable(g *gen, c *Cfg, n int) []RouteCfg {
 	var out []RouteCfg
@@ -540,7 +541,8 @@ func genRequest(g *gen, c *Cfg, o *relayGenOpts, learnedHosts []string) Op {
 
 	// To host: decides static routing
 	toHost := g.pick("other.invalid", "example.com", "a.example.com", "b.example.com", "aXexample.com", "corp.test", "b.corp.test", "x.test", "default", "example.org",
-		"example.com.au", "a.example.community", "b.corp.testing", "xexample.com") // hosts that extend a configured destination at either end
+		"example.com.au", "a.example.community", "b.corp.testing", "xexample.com", // hosts that extend a configured destination at either end
+		"10.9.8.7", "10.9.1.1", "10.8.8.7", "10.98.8.7") // IPv4 literals: one that may be an entry, ones only patterns cover, one that a '.' taken for "any character" would cover
 	toUser := g.user0()
 	fromURI := "sip:" + g.user0() + "@" + g.pick("ua.example.org", "10.1.0.1", "caller.test")
 	toURI := "sip:" + toUser + "@" + toHost
